@@ -119,11 +119,18 @@ func runC04Case(run *ev.Run, cs c04Case) {
 	tAfter := time.Since(base) // Attack has returned: the attack's start instant lies in [0, tAfter]
 
 	var got []*vegeta.Result
+	var consT []time.Duration // harness clock just before each receive: a lower bound of the hand-over instant
 	done := make(chan struct{})
 	go func() {
 		defer close(done)
 		n := 0
-		for r := range results {
+		for {
+			tb := time.Since(base)
+			r, ok := <-results
+			if !ok {
+				break
+			}
+			consT = append(consT, tb)
 			got = append(got, r)
 			n++
 			if cs.SlowCons && n%16 == 0 {
@@ -189,6 +196,17 @@ func runC04Case(run *ev.Run, cs c04Case) {
 			}
 			if lower := recs[i-1].TReturn + w - tAfter; r.Elapsed < lower {
 				viol("elapsed-too-small", "free-running", fmt.Sprintf("Pace call #%d elapsed=%v but at least %v passed since the attack started (previous call returned at %v, wait %v, Attack returned at %v)", i, r.Elapsed, lower, recs[i-1].TReturn, recs[i-1].Wait, tAfter), excerpt(i), nil)
+				break
+			}
+		}
+		// Pace call i follows the hand-over of tick i-1 to an idle worker. With at
+		// most M workers, at least i-M earlier hits had then delivered their
+		// result, so the elapsed time is at least the instant of the (i-M)-th
+		// consumption (a stale clock reading taken before a blocking hand-over
+		// falls below it).
+		if c := i - int(cs.Max); c >= 1 && c <= len(consT) {
+			if lower := consT[c-1] - tAfter; r.Elapsed < lower {
+				viol("elapsed-stale", "workers-saturated", fmt.Sprintf("Pace call #%d elapsed=%v, but %d results had been consumed before its tick could be handed over, the last of them not before %v (Attack returned at %v)", i, r.Elapsed, c, consT[c-1], tAfter), excerpt(i), nil)
 				break
 			}
 		}
